@@ -72,13 +72,13 @@ def gen_cases(rng, tier):
     cases.append({"route": route, "model": model, "style": rng.randrange(1 << 30), "reject": False, "boundary_on_grid": b1})
   # potentials whose energy is exactly 0 at a grid point where the slope is not (roots on the grid):
   # a writer that treats "energy == 0" as "switched off" would print a zero force there
-  for i in range(16 if tier == "quick" else 96):
+  for i in range(20 if tier == "quick" else 120):
     nr = rng.choice([8, 12, 24, 44])
     cutoff = (nr - 4) * rng.choice([0.25, 0.125, 0.5])
     delpot = cutoff / (nr - 4)
     k = rng.randint(2, nr - 2)
     node, rv = spec.root_node(rng, k * delpot, spec.ROOT_VARIANTS[i % len(spec.ROOT_VARIANTS)])
-    route = ["api_class", "api_legacy", "potable", "cli"][(i + i // 8) % 4]
+    route = ["api_class", "api_legacy", "potable", "cli"][(i + i // 10) % 4]
     model = {"type": "pair", "target": "DL_POLY", "tab": {"nr": nr, "cutoff": cutoff}, "forms": [], "tables": [], "pair": [["Ar", "Ar", node]]}
     cases.append({"route": route, "model": model, "style": rng.randrange(1 << 30), "reject": False, "root_on_grid": k, "root_variant": rv})
   # rejection does not depend on what is tabulated: an EMPTY list of potentials with a row count that is not a multiple
